@@ -21,6 +21,15 @@ From Juniper Require Import Common.Base Conc.GoLTS.
 Inductive cerr := ECanceled | EDeadline.                 (* context.Canceled / DeadlineExceeded *)
 Inductive sres := SNil | STooSoon | SErr (e : cerr).     (* nil / DeadlineTooSoonError / ctx.Err() *)
 
+Definition cerr_eqb (a b : cerr) : bool :=
+  match a, b with ECanceled, ECanceled | EDeadline, EDeadline => true | _, _ => false end.
+Definition sres_eqb (a b : sres) : bool :=
+  match a, b with
+  | SNil, SNil | STooSoon, STooSoon => true
+  | SErr e, SErr f => cerr_eqb e f
+  | _, _ => false
+  end.
+
 (* The straight-line prefix of SleepContext: Some r = returns r at once, None = goes on to wait.
    [inverted = false] is the code in /repo (remaining < d); [inverted = true] is the historical
    code (remaining > d). *)
@@ -155,11 +164,7 @@ Definition sstep_gen (inverted : bool) (s : sst) (l : slab) : option sst :=
   | SLRet r =>
       match spc_ s with
       | SReturning r' =>
-          if match r, r' with
-             | SNil, SNil | STooSoon, STooSoon | SErr ECanceled, SErr ECanceled
-             | SErr EDeadline, SErr EDeadline => true
-             | _, _ => false end
-          then Some (with_pc s (SDone r)) else None
+          if sres_eqb r r' then Some (with_pc s (SDone r)) else None
       | _ => None
       end
   end.
@@ -262,7 +267,7 @@ Definition tm_set_cb (tm : timer) (x : cbpc) : timer :=
   mkTm (tm_gen tm) (tm_dl tm) (tm_d tm) (tm_j tm) (tm_st tm) x.
 Definition set_tm (s : st) (k : nat) (tm : timer) : st := set_timers s (upd (timers s) k tm).
 
-(* (*time.Timer).Stop: an armed timer never fires; one whose callback already started is unaffected *)
+(* Timer.Stop: an armed timer never fires; one whose callback already started is unaffected *)
 Definition stop_timer (tms : list timer) (k : nat) : list timer :=
   match nth_error tms k with
   | Some tm => match tm_st tm with TArmed => upd tms k (tm_set_st tm TIdle) | _ => tms end
@@ -481,12 +486,12 @@ Definition tinit (n : nat) : st :=
 
 (* the property's spacing clause on the ghost list of ticks (newest first): each tick is at least
    d - jitter after its predecessor, d and jitter being the ones in force when the timer that sent it
-   was scheduled (for arguments inside the int64 range: d + jitter <= max_i64) *)
+   was scheduled (for documented arguments 0 <= jitter < d inside the int64 range: d + jitter <= max_i64) *)
 Fixpoint spaced (l : list (Z * Z * Z)) : Prop :=
   match l with
   | (t2, d2, j2) :: tl =>
       match tl with
-      | (t1, _, _) :: _ => (0 <= j2 -> d2 + j2 <= max_i64 -> d2 - j2 <= t2 - t1) /\ spaced tl
+      | (t1, _, _) :: _ => (0 <= j2 < d2 -> d2 + j2 <= max_i64 -> d2 - j2 <= t2 - t1) /\ spaced tl
       | [] => True
       end
   | [] => True
@@ -502,14 +507,6 @@ Definition is_sched_body (l : lab) : bool := match l with TBodySched _ _ => true
 Definition svis (l : slab) : option slab :=
   match l with SLTick _ | SLCancel | SLCall | SLRet _ => Some l | _ => None end.
 
-Definition cerr_eqb (a b : cerr) : bool :=
-  match a, b with ECanceled, ECanceled | EDeadline, EDeadline => true | _, _ => false end.
-Definition sres_eqb (a b : sres) : bool :=
-  match a, b with
-  | SNil, SNil | STooSoon, STooSoon => true
-  | SErr e, SErr f => cerr_eqb e f
-  | _, _ => false
-  end.
 Definition slab_eqb (a b : slab) : bool :=
   match a, b with
   | SLTick t, SLTick u => t =? u
